@@ -212,7 +212,9 @@ class HealSparseMap(object):
             # One pixel is the overflow pixel of a truly empty map
             npix = 1
         else:
-            cov_pixels = np.atleast_1d(cov_pixels)
+            cov_pixels = np.atleast_1d(cov_pixels).ravel()
+            if np.unique(cov_pixels).size < cov_pixels.size:
+                raise ValueError("The coverage pixels to allocate must be unique.")
             cov_map = HealSparseCoverage.make_from_pixels(nside_coverage, nside_sparse,
                                                           cov_pixels)
             # We need to allocate the overflow pixel
